@@ -1,4 +1,4 @@
 From Coq Require Import ZArith Extraction ExtrOcamlBasic.
 From CyVerif Require Import Lib.CInt Model.M_IntFmt.
 Extraction "../ocaml/gen/m_intfmt.ml" ex_keep cint_to_unicode py_format_int uchar_to_unicode
-  py_format_char uchar_to_unicode_b utf8_decode utf8_enc_c utf8_ref parse_base buf_size DIGIT_PAIRS_10 DIGIT_PAIRS_8 DIGITS_HEX.
+  py_format_char uchar_to_unicode_b utf8_decode utf8_enc_c utf8_ref padded_consts parse_base buf_size DIGIT_PAIRS_10 DIGIT_PAIRS_8 DIGITS_HEX.
